@@ -77,6 +77,9 @@ def main() -> int:
     ap.add_argument("--replay")
     ap.add_argument("--skip-lean", action="store_true", help="development only: skip the proof side")
     args = ap.parse_args()
+    global OUT
+    if args.skip_lean and not os.environ.get("VERIF_OUT"):
+        OUT = Path("/tmp/verif_dev_out")       # a development run never overwrites the committed evidence
     prop = args.prop
     if prop not in PROPS:
         print(f"unknown property {prop}")
